@@ -36,7 +36,9 @@ FMT_SPECS = [None, dict(color='RED'), dict(color='GREEN', bold=True), dict(color
              dict(color=None, no_color=True), dict(color=None, bg_color='BLUE'),
              dict(color=None, underline=True, crossed=True), dict(color=(1, 2, 3), bg_color='g5'),
              # colour number 0 (black), as foreground and as background
-             dict(color=0), dict(color=None, bg_color=0, bold=True)]
+             dict(color=0), dict(color=None, bg_color=0, bold=True),
+             # an rgb triple as background
+             dict(color=None, bg_color=(5, 0, 1))]
 _FMTS = None
 
 
@@ -411,9 +413,30 @@ def run_history(ctx, rng, script=None):
     return ops_log
 
 
+def control_characters_as_data(ctx, rng):
+    """the characters of a text may be anything a str holds - also what a terminal would read as a colour
+    sequence (the rendering of another text kept as data, a log line): plain_text(), len() and == treat them as
+    the characters they are.  (The rendering of such a text is not read back: the terminal model cannot tell data
+    from markup there.)"""
+    pieces = ["a", "\x1b[1;31m", "bc", "\x1b[0m", "\x1b[m", str(fmts()[1][0]("q")), " ", "\x1b", "[0m"]
+    parts = [rng.choice(pieces) for _ in range(rng.randint(1, 5))]
+    plain = "".join(parts)
+    k = rng.randrange(len(FMT_SPECS))
+    f = fmts()[k][0]
+    how = rng.randrange(3)
+    text = CHText(*parts) if how == 0 else CHText(plain) if how == 1 else CHText(f(parts[0]) if f else parts[0], *parts[1:])
+    ctx.count("texts_whose_characters_look_like_colour_sequences")
+    case = {"script": None, "control_characters": parts}
+    if text.plain_text() != plain or len(text) != len(plain) or (how < 2 and not text == plain):
+        ctx.violation("plain-text-differs-from-the-characters-given",
+                      {"parts": [repr(p) for p in parts], "plain_text": repr(text.plain_text()), "len": len(text)}, case)
+
+
 def run_shard(ctx):
     for i in range(ctx.cases):
         ctx.evaluated()
+        if i % 8 == 3:
+            control_characters_as_data(ctx, ctx.rng(i))
         log = run_history(ctx, ctx.rng(i))
         if i < 2:
             ctx.sample({"history": log})
@@ -421,4 +444,9 @@ def run_shard(ctx):
 
 def replay(ctx, case):
     ctx.evaluated()
+    if case.get("control_characters"):
+        import random
+        for k in range(200):
+            control_characters_as_data(ctx, random.Random(k))
+        return
     run_history(ctx, ctx.rng(0), script=[list(x) if isinstance(x, (list, tuple)) else x for x in case["script"]])
